@@ -24,21 +24,26 @@ Fixpoint wh_words (buf : bytes) (cl : Z) (words : list bytes) : bytes :=
       wh_words buf3 (cl2 - zlen w) rest
   end.
 
+Definition starts_crlf (t : bytes) : bool :=
+  match t with c1 :: c2 :: _ => (N.eqb c1 13 && N.eqb c2 10)%bool | _ => false end.
+
 (* strings.ReplaceAll(s, " \r\n", "\r\n") *)
 Fixpoint drop_sp_before_crlf (s : bytes) : bytes :=
   match s with
-  | 32%N :: ((13%N :: 10%N :: _) as t) => drop_sp_before_crlf t
-  | b :: t => b :: drop_sp_before_crlf t
   | [] => []
+  | b :: t => if (N.eqb b 32 && starts_crlf t)%bool then drop_sp_before_crlf t
+              else b :: drop_sp_before_crlf t
   end.
 
-(* strings.Count(s, "\r\n") *)
-Fixpoint count_crlf (s : bytes) : nat :=
+(* strings.Count(s, "\r\n"): non-overlapping occurrences; [skip] = the LF of a counted CRLF *)
+Fixpoint count_crlf_aux (skip : bool) (s : bytes) : nat :=
   match s with
-  | 13%N :: ((10%N :: t) as t0) => S (count_crlf t)
-  | _ :: t => count_crlf t
   | [] => O
+  | b :: t => if skip then count_crlf_aux false t
+              else if (N.eqb b 13 && match t with c :: _ => N.eqb c 10 | [] => false end)%bool
+                   then S (count_crlf_aux true t) else count_crlf_aux false t
   end.
+Definition count_crlf (s : bytes) : nat := count_crlf_aux false s.
 
 (* the string handed to the first writeString of writeHeader (no final CRLF) *)
 Definition wh_buffer (key : bytes) (values : list bytes) : bytes :=
